@@ -181,3 +181,30 @@ func init() {
 		return true
 	}
 }
+
+func init() {
+	prev := debugHook
+	debugHook = func(w *World, what string) bool {
+		if strings.HasPrefix(what, "effects:") {
+			name := strings.TrimPrefix(what, "effects:")
+			i := strings.LastIndex(name, ".")
+			fn := w.member(name[:i], name[i+1:])
+			if fn == nil {
+				fmt.Println("not found")
+				return true
+			}
+			e := w.Effects()
+			s := e.summary(fn)
+			fmt.Println("W:", s.W.list())
+			fmt.Println("R:", s.R.list())
+			for k, v := range s.S {
+				fmt.Println("S", k, v.list())
+			}
+			for _, wr := range s.Writes {
+				fmt.Println("  write", w.pos(wr.Pos), wr.What, wr.Tags.list())
+			}
+			return true
+		}
+		return prev(w, what)
+	}
+}
